@@ -136,6 +136,40 @@ let mini_parse (n : int) (line : string) : mini option =
      | None -> None)
   | _ -> None
 
+(* `enum [a nums] [l k]` in any group order / spelling: (assumptions, limit) *)
+let enum_parse (n : int) (line : string) : (int list * int option) option =
+  let toks = split_blank line in
+  let texts = List.filter (fun t -> int_tok t = None) toks in
+  if List.length (List.sort_uniq compare texts) <> List.length texts then None else
+  match toks with
+  | "enum" :: rest ->
+    let is_a t = t = "a" || t = "assumptions" and is_l t = t = "l" || t = "limit" in
+    let rec go a l = function
+      | [] -> Some (a, l)
+      | k :: r when is_a k && a = None ->
+        let rec nums got = function
+          | t :: r' when not (is_a t || is_l t) ->
+            (match num_tok n t with Some x -> nums (got @ x) r' | None -> None)
+          | r' -> Some (got, r') in
+        (match nums [] r with
+         | Some (got, r') ->
+           let got = List.filter (fun x -> x <> 0) got in
+           if got = [] || List.exists (fun x -> abs x > n) got then None else go (Some got) l r'
+         | None -> None)
+      | k :: t :: r when is_l k && l = None ->
+        (match int_tok t with Some v when v >= 1 && v <= 100000 -> go a (Some v) r | _ -> None)
+      | _ -> None in
+    (match go None None rest with
+     | Some (a, l) -> Some ((match a with Some x -> x | None -> []), l)
+     | None -> None)
+  | _ -> None
+
+(* the answer of an accepted enum line: ';'-joined configurations, literals joined by blanks *)
+let parse_cfgs (a : string) : int list list option =
+  try Some (List.map (fun c -> List.map (fun t -> match int_tok t with Some v -> v | None -> raise Exit) (split_blank c))
+              (String.split_on_char ';' a))
+  with Exit -> None
+
 let expected (tbl : int list) (n : int) (m : mini) : string =
   let mca = Chk_ops.mca tbl in
   let features = List.init n (fun i -> i + 1) in
@@ -269,7 +303,32 @@ let check (b : block) : verdict list =
                       add (Viol ("stream:param-order", Printf.sprintf "lines [%s] and [%s] are the same request but answered {%s} / {%s}" (String.escaped l0) show (String.escaped a0) (String.escaped a)))
                     | Some _ -> bump "c13_same_request_pairs"
                     | None -> Hashtbl.replace seen key (a, e.line))
-                 | None -> ())
+                 | None ->
+                   (match enum_parse n e.line with
+                    | Some (ma, lim) when Chk_ops.mca t [] > 0 && foreign = None ->
+                      (* the library call is enumerate(A, k), k = the limit, default min(#models, 1000) *)
+                      bump "c13_enum_lines_decided_by_truth_table";
+                      let k = match lim with Some k -> k | None -> min (Chk_ops.mca t []) 1000 in
+                      let ca = Chk_ops.mca t ma in
+                      if ca = 0 then begin
+                        if not (is_err_text a) then
+                          add (Viol ("stream:wrong-result", Printf.sprintf "line [%s] answered {%s}: no configuration contains the assumptions, enumerate(A, %d) is None and the documented answer is the E5 error" show (String.escaped a) k))
+                      end else begin
+                        match (if is_err_text a then None else parse_cfgs a) with
+                        | None -> add (Viol ("stream:wrong-result", Printf.sprintf "line [%s] answered {%s}: %d configurations contain the assumptions" show (String.escaped a) ca))
+                        | Some cfgs ->
+                          let mask c = List.fold_left (fun acc l -> if l > 0 then acc lor (1 lsl (l - 1)) else acc) 0 c in
+                          let complete c = List.sort compare (List.map abs c) = List.init n (fun i -> i + 1) in
+                          let bad = List.filter (fun c -> not (complete c && List.mem (mask c) t && List.for_all (fun l -> List.mem l c) ma)) cfgs in
+                          let cnt = List.length cfgs in
+                          if bad <> [] then
+                            add (Viol ("stream:wrong-result", Printf.sprintf "line [%s] answered {%s}: not every entry is a complete valid configuration containing the assumptions" show (String.escaped a)))
+                          else if List.length (List.sort_uniq compare cfgs) <> cnt then
+                            add (Viol ("stream:wrong-result", Printf.sprintf "line [%s] answered {%s}: a configuration is listed twice in one page" show (String.escaped a)))
+                          else if cnt < 1 || cnt > min k ca then
+                            add (Viol ("stream:wrong-result", Printf.sprintf "line [%s] answered %d configurations; enumerate(A, %d) with %d matching configurations returns between 1 and %d" show cnt k ca (min k ca)))
+                      end
+                    | _ -> ()))
               | None -> ());
              (match e.fresh with
               | Some f ->
